@@ -31,6 +31,7 @@ func main() {
 	only := flag.String("only", "", "evaluate a single obligation: <rule>/<construct>")
 	replay := flag.String("replay", "", "violations file: re-evaluate the obligations it names")
 	dump := flag.String("dump", "", "debug: dump facts for function name")
+	pathq := flag.String("path", "", "debug: from,to[,stop] call-graph path")
 	noself := flag.Bool("noselftest", false, "thorough: skip the mutation self-test")
 	flag.Parse()
 	if *tier == "" {
@@ -41,6 +42,20 @@ func main() {
 	}
 	seed, _ := strconv.Atoi(os.Getenv("VERIF_SEED"))
 
+	if *pathq != "" {
+		e, err := Load(*repo, defaultConfig)
+		if err != nil {
+			fmt.Println(err)
+			os.Exit(2)
+		}
+		ps := strings.Split(*pathq, ",")
+		stop := ""
+		if len(ps) > 2 {
+			stop = ps[2]
+		}
+		dumpPath(e, ps[0], ps[1], stop)
+		return
+	}
 	if *dump != "" {
 		e, err := Load(*repo, defaultConfig)
 		if err != nil {
